@@ -6,6 +6,7 @@ import FlVerif.Op.FunctionTerm
 import FlVerif.Lemmas.CodeFunction
 import FlVerif.Lemmas.CodeFunctionParse
 import FlVerif.Lemmas.CodeFunEval
+import FlVerif.Lemmas.CodeFunEvalParse
 
 /-! # C17 — Function formulas follow the documented precedence and associativity
 
@@ -115,6 +116,41 @@ theorem code_functionMembership {V : Type} [Inhabited V] (sem : Sem V) (const : 
     | .ok v => ∃ σ, Gen.Code.Function_membership.run sem const (root.map Expr.toNode) fvars engine x {} = .ok σ ∧
         σ.ret = some v :=
   CodeFunEval.code_functionMembership sem const root hr fvars engine x
+
+/-- every tree `Function.parse` builds (over a well-formed table: no element of arity 3 or more) satisfies the two
+    side conditions of `code_nodeEvaluate` / `code_functionMembership`: arities agree with the node kinds, and the
+    leaves are tokens of `format_infix(formula).split()`, hence not empty -/
+theorem parse_built (tbl : Table) (hT : tbl.WellFormed) (formula : String) (e : Expr)
+    (h : parseFormula tbl (formatInfix tbl formula) = .ok e) : Arities e ∧ e.LeavesNonempty :=
+  parseFormula_built tbl hT formula e h
+
+/-- the model of the property theorems (`Op.functionMembership`, values `Val α`, the documented meaning of the
+    elements) is `Op.parseFormula` followed by `Op.membershipOf` -/
+theorem functionMembership_as_membershipOf {α : Type} [Field α] [LinearOrder α] [IsStrictOrderedRing α] [FloorRing α]
+    (F : Fn α) (tbl : Table) (formula : String) (fvars evars : List (String × X α)) (x : X α) :
+    functionMembership F tbl formula fvars evars x =
+      match parseFormula tbl (formatInfix tbl formula) with
+      | .error k => .error k
+      | .ok e => (membershipOf (valSem F (fun _ => none)) numConst (some e) (liftEnv fvars) (liftEnv evars) (Val.num x)).map
+          (fun v => (e, v)) :=
+  functionMembership_eq F tbl formula fvars evars x
+
+/-- **Tie A, end to end.**  `Function.create(name, formula, engine)` followed by `.membership(x)`: the translated
+    `Function.parse` and then the translated `Function.membership` on the node it returns raise the exception class
+    `Op.functionMembership` predicts and otherwise return its tree (as a `Function.Node`) and its value – for every
+    well-formed table (`table_wellFormed` for the regenerated one), formula, map of term variables, engine variables
+    (`none`: no engine) and `x`; the elements mean what `Lang.sem0/1/2` document. -/
+theorem code_createMembership {α : Type} [Field α] [LinearOrder α] [IsStrictOrderedRing α] [FloorRing α]
+    (F : Fn α) (tbl : Table) (hT : tbl.WellFormed) (formula : String)
+    (fvars : List (String × X α)) (engine : Option (List (String × X α))) (x : X α) :
+    match functionMembership F tbl formula fvars (engine.getD []) x with
+    | .error k => (Gen.Code.Function_parse.run tbl formula {} >>= fun p =>
+        Gen.Code.Function_membership.run (valSem F (fun _ => none)) numConst p.ret (liftEnv fvars) (engine.map liftEnv)
+          (Val.num x) {}) = .error k.toPy
+    | .ok r => ∃ p σ, Gen.Code.Function_parse.run tbl formula {} = .ok p ∧ p.ret = some r.1.toNode ∧
+        Gen.Code.Function_membership.run (valSem F (fun _ => none)) numConst p.ret (liftEnv fvars) (engine.map liftEnv)
+          (Val.num x) {} = .ok σ ∧ σ.ret = some r.2 :=
+  CodeFunEval.code_createMembership F tbl hT formula fvars engine x
 
 /-! ## infix → postfix: the shunting-yard loop is correct for every writing of every tree -/
 
